@@ -2,6 +2,7 @@ package main
 
 import (
 	"encoding/json"
+	"fmt"
 	"math/rand"
 	"sort"
 	"sync"
@@ -269,6 +270,146 @@ func init() {
 	}
 
 	// concurrent histories: invocation/response tickets from a global atomic counter taken inside the call window
+	// amplified scenarios: many keys are driven into the same internal shape (stored / promoted / deleted after promotion /
+	// expunged), then one goroutine applies an operation to each of them in turn while another one performs a single
+	// operation that restructures the map (a store of a new key, Length, Range, Clear, misses): every key is one chance
+	// for the two to meet inside the window
+	subcmds["vmap-amp"] = func(args []string) int {
+		fs := newFlags("vmap-amp")
+		out := fs.String("out", "", "trace ndjson")
+		reps := fs.Int("reps", 20, "repetitions per scenario")
+		fs.Parse(args)
+		rng := rand.New(rand.NewSource(envSeed()))
+		const M = 32
+		keys := make([]string, M)
+		for i := range keys {
+			keys[i] = fmt.Sprintf("k%02d", i+1)
+		}
+		preps := []string{"none", "stored", "promoted", "promoted-deleted", "expunged", "stored-deleted"}
+		opsA := []string{"Store", "LoadOrStore", "Delete", "LoadAndDelete", "Load"}
+		opsB := []string{"StoreNew", "Length", "Range", "Clear", "Misses"}
+		w := newNDWriter(*out)
+		defer w.Close()
+		n := 0
+		for _, prep := range preps {
+			for _, oa := range opsA {
+				for _, ob := range opsB {
+					// scenarios in which entries are promoted / deleted / expunged while they are being written get more repetitions
+					nrep := *reps
+					if (prep == "promoted" || prep == "promoted-deleted" || prep == "expunged") && oa != "Load" && (ob == "StoreNew" || ob == "Misses" || ob == "Clear") {
+						nrep *= 6
+					}
+					for rep := 0; rep < nrep; rep++ {
+						m := &ds.ValueMap{}
+						init := []kv{}
+						live := prep == "stored" || prep == "promoted"
+						if prep != "none" {
+							for i, k := range keys {
+								m.Store(k, ds.NewIntVal(ds.IntType(100+i)))
+							}
+						}
+						switch prep {
+						case "promoted":
+							m.Length()
+						case "promoted-deleted":
+							m.Length()
+							for _, k := range keys {
+								m.Delete(k)
+							}
+						case "expunged":
+							m.Length()
+							for _, k := range keys {
+								m.Delete(k)
+							}
+							m.Store("j", ds.NewIntVal(7)) // rebuilds dirty: the deleted entries become expunged
+							init = append(init, kv{"j", 7})
+						case "stored-deleted":
+							for _, k := range keys {
+								m.Delete(k)
+							}
+						}
+						if live {
+							for i, k := range keys {
+								init = append(init, kv{k, 100 + i})
+							}
+						}
+						var ticket int64
+						var all []map[string]any
+						var mu sync.Mutex
+						rec := func(g, seq int, c vmCall, r vmRes, inv, rsp int64) {
+							mu.Lock()
+							all = append(all, map[string]any{"g": g, "seq": seq, "op": c.Op, "k": c.K, "v": c.V, "res": r.Res, "ok": r.Ok, "inv": inv, "rsp": rsp})
+							mu.Unlock()
+						}
+						var ready int64
+						var wg sync.WaitGroup
+						wg.Add(2)
+						delay := rng.Intn(800)
+						go func() {
+							defer wg.Done()
+							atomic.AddInt64(&ready, 1)
+							for atomic.LoadInt64(&ready) < 2 {
+							}
+							for i, k := range keys {
+								c := vmCall{Op: oa, K: k}
+								if oa == "Store" || oa == "LoadOrStore" {
+									c.V = 200 + i
+								}
+								inv := atomic.AddInt64(&ticket, 1)
+								r := vmApply(m, c)
+								rsp := atomic.AddInt64(&ticket, 1)
+								rec(0, i, c, r, inv, rsp)
+							}
+						}()
+						go func() {
+							defer wg.Done()
+							atomic.AddInt64(&ready, 1)
+							for atomic.LoadInt64(&ready) < 2 {
+							}
+							for spin := 0; spin < delay; spin++ {
+								atomic.LoadInt64(&ticket)
+							}
+							var cs []vmCall
+							switch ob {
+							case "StoreNew":
+								cs = []vmCall{{Op: "Store", K: "n", V: 9}}
+							case "Length":
+								cs = []vmCall{{Op: "Length"}}
+							case "Range":
+								cs = []vmCall{{Op: "Range"}}
+							case "Clear":
+								cs = []vmCall{{Op: "Clear"}}
+							case "Misses":
+								cs = []vmCall{{Op: "Load", K: "z"}, {Op: "Load", K: "z"}, {Op: "Load", K: "z"}, {Op: "Store", K: "n", V: 9}}
+							}
+							for i, c := range cs {
+								inv := atomic.AddInt64(&ticket, 1)
+								r := vmApply(m, c)
+								rsp := atomic.AddInt64(&ticket, 1)
+								rec(1, i, c, r, inv, rsp)
+							}
+						}()
+						wg.Wait()
+						// quiescent contents, observed twice and by point reads (promotion happens in between)
+						f1 := vmApply(m, vmCall{Op: "Range"})
+						okPoint := true
+						for _, p := range f1.Rng {
+							if v, ok := m.Load(p.K); !ok || ival(v) != p.V {
+								okPoint = false
+							}
+						}
+						f2 := vmApply(m, vmCall{Op: "Range"})
+						ln := m.Length()
+						stable := okPoint && sameRes(f1, f2) && ln == len(f1.Rng)
+						w.Write(map[string]any{"init": init, "ops": all, "final": f1.Rng, "stable": stable, "scenario": prep + "/" + oa + "/" + ob})
+						n++
+					}
+				}
+			}
+		}
+		emitSummary(map[string]any{"histories": n, "scenarios": len(preps) * len(opsA) * len(opsB)})
+		return 0
+	}
 	subcmds["vmap-conc"] = func(args []string) int {
 		fs := newFlags("vmap-conc")
 		out := fs.String("out", "", "trace ndjson")
